@@ -123,6 +123,30 @@ CLAIMED = {
             "PARTIAL: serde, serde_derive, serde_json, serde-big-array and the serde impls of fixed-hash / curve25519-dalek are modelled, not verified; "
             "JSON text parsing is not modelled (python's json module reads the text); ExtraField/SubField/PublicKey derives not covered",
             "Coq proof over a modelled serde data model (partial) + correspondence", "4 C19"),
+    "C07": ("Coq theorems (Props/C07.v, 7): soundness of every reported (position, index, key) - position in range, index in the scanned ranges, "
+            "key = first TxPublicKey or the additional key at that position (only if the main key did not match), view tag passed, "
+            "P = Hs(8vK||varint pos)G + S_idx; positions strictly increasing; not-reported when no key matches; completeness w.r.t. an independent "
+            "sender specification (Spec/Sender.v: primary and subaddress destinations, main or additional key, tagged or untagged) with exact "
+            "(index, key) under explicit no-other-match hypotheses; the three entry points agree - for EVERY group satisfying EdLaws (_partial) "
+            "and every hash. Correspondence: model sender builds the bytes; library = model = independent python sender + scanner on "
+            "n in {1,2,3,130,260} (thorough 2000, 20000), all RingCT types, all output classes.",
+            "PARTIAL: group laws are hypotheses (EdLaws); HashMap modelled as last-insert-wins association list; completeness relative to "
+            "Spec/Sender.v and conditional on the scan returning Ok; no collision resistance assumed",
+            "Coq proof over an abstract group (partial) + correspondence", "4 C07"),
+    "C08": ("Coq theorems (Props/C08.v, 9): every opening returned for ANY input satisfies C = C_t and C = yG + aH; a successful scan of a RingCT "
+            "transaction gives every owned output an opening of its own out_pk entry, otherwise clear amounts (0 -> None); failures are exactly "
+            "MissingEcdhInfo / MissingCommitment / InvalidCommitment; the decoder inverts the sender (Spec/Sender.v) in the compact encoding for "
+            "all a < 2^64 and in the legacy encoding for all a < 2^64, masks < l and ALL shared secrets - for EVERY group satisfying EdLaws "
+            "(_partial). Correspondence: sender-encoded and corrupted fields at every byte position, all RingCT types, truncated vectors; "
+            "library = model = python, and yG + aH = C re-checked independently on every returned opening.",
+            "PARTIAL: group laws are hypotheses (EdLaws); legacy exactness needs Hs in [0,l) (true of Keccak mod l); model hand-written from ringct.rs after fix a645281",
+            "Coq proof over an abstract group (partial) + correspondence", "4 C08"),
+    "C09": ("Coq theorems (Props/C09.v, 3): recover = Hs(8vK||varint n) + s (+ subaddress scalar) mod l; its public key is the one-time key of "
+            "that address and position; every output reported by a scan with (v, sG) is recovered without panic to x with xG = the output's key "
+            "- for EVERY group satisfying EdLaws (_partial). Correspondence: KeyRecoverer on boundary positions / indices and "
+            "OwnedTxOut::recover_key on every owned output of sender-built transactions; library = model = python.",
+            "PARTIAL: group laws are hypotheses (EdLaws); model hand-written from onetime_key.rs / transaction.rs",
+            "Coq proof over an abstract group (partial) + correspondence", "4 C09"),
 }
 NOT_YET = {}
 ALL = ["C%02d" % i for i in range(1, 21)]
